@@ -200,6 +200,34 @@ pub fn run(tier: Tier) -> i32 {
         }
     }
 
+    // numbers and booleans that enter a text through a reference (a key that is a number, a numeric / boolean
+    // argument) stand where the reference stands: first, between variables, next to each other
+    {
+        let mut p = Project::new(Config::simple("en", &["en", "fr"]));
+        for (l, n, neg, f, flag) in [("en", 7u64, -3i64, "1.5", true), ("fr", 9, -40, "2.25", false)] {
+            p.set_file(
+                None,
+                l,
+                vec![
+                    ("n".into(), Val::UInt(n)),
+                    ("neg".into(), Val::Int(neg)),
+                    ("f".into(), Val::Float(f.into())),
+                    ("flag".into(), Val::Bool(flag)),
+                    ("s0".into(), s(vec![var("x"), text(&format!("[{l}.s0] tail"))])),
+                    ("s1".into(), s(vec![var("y"), var("x"), text(&format!("[{l}.s1]")), var("x")])),
+                    ("r1".into(), s(vec![fk("n"), text(&format!(" [{l}.r1] apples"))])),
+                    ("r2".into(), s(vec![var("z"), fk("flag"), text(&format!(" [{l}.r2] end"))])),
+                    ("r3".into(), s(vec![fk("n"), fk("flag"), fk("f"), fk("neg"), text(&format!(" [{l}.r3]"))])),
+                    ("r4".into(), s(vec![fk_args("s0", vec![("x", FkArg::UInt(12))]), text(&format!(" [{l}.r4] after"))])),
+                    ("r5".into(), s(vec![fk_args("s0", vec![("x", FkArg::Bool(true))])])),
+                    ("r6".into(), s(vec![fk_args("s1", vec![("x", FkArg::Int(-5)), ("y", FkArg::Float("0.5".into()))])])),
+                    ("r7".into(), s(vec![text(&format!("[{l}.r7] ")), fk("neg"), text(" mid "), fk("f")])),
+                ],
+            );
+        }
+        projects.push(("literal-references".into(), p));
+    }
+
     let n_values = values.len();
     par_for(projects.len(), |w, i| {
         let (part, p) = &projects[i];
@@ -221,7 +249,7 @@ pub fn run(tier: Tier) -> i32 {
     }
     let mut cov = serde_json::Map::new();
     cov.insert("rule".into(), json!(format!(
-        "every forest of Text|Var{{x,y}}|Comp{{b,i}} with <= {max_nodes} nodes (sizes {per_size:?}), labelled with self-identifying text and rotating payloads {:?}; every whitespace combination at the 5 tag and 2 variable positions on <= 2-node forests; every ordered payload pair in 7 contexts; all pairs of 14 literal values; the value kinds under every inherits map of a four-locale set declared in every order (625 projects: presence patterns, groups, values rendering as nothing); each value placed at top level, in subkeys depth 3 and in two namespaces with swapped values; distinct_nontrivial = distinct (en,fr) value pairs", PAYLOADS)));
+        "every forest of Text|Var{{x,y}}|Comp{{b,i}} with <= {max_nodes} nodes (sizes {per_size:?}), labelled with self-identifying text and rotating payloads {:?}; every whitespace combination at the 5 tag and 2 variable positions on <= 2-node forests; every ordered payload pair in 7 contexts; all pairs of 14 literal values; the value kinds under every inherits map of a four-locale set declared in every order (625 projects: presence patterns, groups, values rendering as nothing); a project whose texts take numbers and booleans in through references (keys that are numbers, numeric / boolean arguments) at the start, between variables, side by side; each value placed at top level, in subkeys depth 3 and in two namespaces with swapped values; distinct_nontrivial = distinct (en,fr) value pairs", PAYLOADS)));
     cov.insert("exhaustive".into(), json!(true));
     cov.insert("bound".into(), json!({"max_nodes": max_nodes, "ws_values": ws_vals.len(), "projects": projects.len(), "keys_per_project": chunk}));
     cov.insert("key_locale_comparisons".into(), json!(*keys_total.lock().unwrap()));
